@@ -476,6 +476,33 @@ impl<const SEED: u64> magma::Sbox for UserSbox<SEED> {
     const SBOX: [[u8; 16]; 8] = user_sbox(SEED);
 }
 
+/// User S-boxes whose `NAME` is long (OID-style names as in RFC 4357) and differs from its
+/// neighbour only near the end: a formatter that builds the name in a fixed buffer, clips it or
+/// keeps only a prefix no longer identifies the S-box parameter (seeded change C19-7).
+macro_rules! long_sbox {
+    ($($t:ident = $name:expr, $seed:expr);* $(;)?) => {
+        $(pub enum $t {}
+        impl magma::Sbox for $t {
+            const NAME: &'static str = $name;
+            const SBOX: [[u8; 16]; 8] = user_sbox($seed);
+        })*
+        /// (S::NAME, Debug text, AlgorithmName text) per long-named user S-box, key given
+        pub fn long_sbox_names(k: &[u8]) -> Vec<(&'static str, String, String)> {
+            vec![$((<$t as magma::Sbox>::NAME, t_debug::<magma::Gost89<$t>>(k).unwrap_or_default(), t_alg_name::<magma::Gost89<$t>>())),*]
+        }
+    };
+}
+long_sbox! {
+    LongSbox17 = "MyCompanySboxNo17", 17;
+    LongSbox18 = "MyCompanySboxNo18", 18;
+    LongSboxA = "id-Gost28147-89-CryptoPro-A-ParamSet", 21;
+    LongSboxB = "id-Gost28147-89-CryptoPro-B-ParamSet", 22;
+    LongSbox70a = "urn:example:gost28147-89:sbox:experimental:2026:variant-with-long-name-a", 23;
+    LongSbox70b = "urn:example:gost28147-89:sbox:experimental:2026:variant-with-long-name-b", 24;
+    LongSbox300 = "S0123456789abcdef0123456789abcdef0123456789abcdef0123456789abcdef0123456789abcdef0123456789abcdef0123456789abcdef0123456789abcdef0123456789abcdef0123456789abcdef0123456789abcdef0123456789abcdef0123456789abcdef0123456789abcdef0123456789abcdef0123456789abcdef0123456789abcdef0123456789abcdef0123456789abcdef-end", 25;
+    UnicodeSbox = "Набор-параметров-ГОСТ-28147-89-пользовательский-№1", 26;
+}
+
 fn ref_gost<S: magma::Sbox>(k: &[u8]) -> Option<Box<dyn RefCipher>> {
     refs::gost89(k, &S::SBOX)
 }
